@@ -1,7 +1,9 @@
 """C06 - quorum decisions follow the votes.
 
 Case: {"emergency": bool, "strategy": 0..6, "threshold": null|number, "min_voters": k,
-       "voters": [[kind, weight, confidence], ...]}
+       "voters": [[kind, weight, confidence], ...], "hist": null|{...}}
+ hist: the final electorate/configuration is reached on one object through add_agent / remove_agent / set_agent_weight /
+ set_strategy with earlier votes and statistics calls in between (initial = voters present before the warm-up).
 The real QuorumSensing / EmergencyQuorum aggregates ballots cast by stub voters (scripted
 ActionProtein or exception).  Oracle: S1-S7 from the statement; the metamorphic relations
 (block -> permit, raise a permit voter's weight / confidence, raise an abstainer's weight) are
@@ -57,7 +59,11 @@ def _case(draw):
         else:
             thr = draw(st.sampled_from([None, None, 0.3, 0.5, 0.666, 0.9, 1.0]))
         mv = draw(st.integers(1, n))
-    return {"emergency": emergency, "strategy": strat, "threshold": thr, "min_voters": mv, "voters": voters}
+    hist = None
+    if draw(st.integers(0, 2)) == 0:
+        hist = {"initial": draw(st.integers(0, n)), "pre_vote": draw(st.booleans()), "pre_stats": draw(st.booleans()), "extra": draw(st.booleans()),
+                "weights_late": draw(st.booleans()), "detour": None if emergency else draw(st.sampled_from([None, None, 0, 2, 6]))}
+    return {"emergency": emergency, "strategy": strat, "threshold": thr, "min_voters": mv, "voters": voters, "hist": hist}
 
 
 def strategy(tier):
@@ -79,6 +85,12 @@ def enumerate_cases(tier):
             for s in range(7):
                 yield {"emergency": False, "strategy": s, "threshold": None, "min_voters": 1, "voters": voters}
             yield {"emergency": True, "strategy": 6, "threshold": 0.3, "min_voters": 1, "voters": voters}
+            if n >= 2:
+                for initial in (0, 1, n - 1):
+                    h = {"initial": initial, "pre_vote": True, "pre_stats": True, "extra": False, "weights_late": False, "detour": None}
+                    yield {"emergency": True, "strategy": 6, "threshold": 0.3, "min_voters": 1, "voters": voters, "hist": h}
+                    yield {"emergency": False, "strategy": 6, "threshold": None, "min_voters": 1, "voters": voters, "hist": h}
+                    yield {"emergency": False, "strategy": 0, "threshold": None, "min_voters": 1, "voters": voters, "hist": dict(h, detour=6, extra=True)}
 
 
 class _Stub:
@@ -94,17 +106,53 @@ class _Stub:
         return ActionProtein(self.kind, {"confidence": self.conf}, self.conf)
 
 
-def _run(case, voters):
+def _run(case, voters, hist=None):
+    """Build the quorum and take one vote.  Without `hist` the object is fresh; with it the same final configuration is
+    reached through the public mutation API (late add_agent / remove_agent / set_agent_weight / set_strategy, earlier
+    votes and statistics calls), so stale derived state shows up."""
     from operon_ai.state.metabolism import ATP_Store
     from operon_ai.topology.quorum import AgentProfile, EmergencyQuorum, QuorumSensing, VotingStrategy
     budget = ATP_Store(1000, silent=True)
+    hist = hist or {}
+    final_strat = getattr(VotingStrategy, STRATS[case["strategy"]])
+    detour = hist.get("detour")
     if case["emergency"]:
         q = EmergencyQuorum(n_agents=0, budget=budget, emergency_threshold=case["threshold"], silent=True)
     else:
-        q = QuorumSensing(n_agents=0, budget=budget, strategy=getattr(VotingStrategy, STRATS[case["strategy"]]),
-                          threshold=case["threshold"], min_voters=case["min_voters"], silent=True)
-    for i, (kind, w, c) in enumerate(voters):
-        q.colony.append(AgentProfile(agent=_Stub("v%d" % i, kind, c), weight=w))
+        first = getattr(VotingStrategy, STRATS[detour]) if detour is not None else final_strat
+        q = QuorumSensing(n_agents=0, budget=budget, strategy=first, threshold=None if detour is not None else case["threshold"],
+                          min_voters=case["min_voters"], silent=True)
+    if not hist:
+        for i, (kind, w, c) in enumerate(voters):
+            q.colony.append(AgentProfile(agent=_Stub("v%d" % i, kind, c), weight=w))
+        return q.run_vote("proposal")
+
+    def add(i, kind, w, c):
+        prof = q.add_agent("v%d" % i, weight=1.0 if hist.get("weights_late") else w)
+        prof.agent = _Stub("v%d" % i, kind, c)
+
+    k = min(hist.get("initial", len(voters)), len(voters))
+    for i in range(k):
+        add(i, *voters[i])
+    if hist.get("extra"):
+        prof = q.add_agent("extra", weight=1.0)
+        prof.agent = _Stub("extra", "PERMIT", 1)
+    if hist.get("pre_vote"):
+        q.run_vote("warm-up")
+    if hist.get("pre_stats"):
+        q.get_statistics()
+        q.get_agent_rankings()
+    for i in range(k, len(voters)):
+        add(i, *voters[i])
+    if hist.get("extra"):
+        q.remove_agent("extra")
+    if hist.get("weights_late"):
+        for i, (_kind, w, _c) in enumerate(voters):
+            q.set_agent_weight("v%d" % i, w)
+    if detour is not None and not case["emergency"]:
+        q.set_strategy(final_strat, case["threshold"])
+    if hist.get("pre_stats"):
+        q.get_statistics()
     return q.run_vote("proposal")
 
 
@@ -124,7 +172,7 @@ def judge(case):
     if strat == "THRESHOLD" and thr is not None and 0 < thr < 1:
         tag += ":fractional"
     try:
-        res = _run(case, voters)
+        res = _run(case, voters, case.get("hist"))
     except Exception as e:
         out.fail("raise:%s:%s" % (type(e).__name__, tag), "run_vote raised %s: %s" % (type(e).__name__, e), None)
         return out
@@ -140,6 +188,17 @@ def judge(case):
     obs = {"reached": res.reached, "decision": res.decision.value, "permit": res.permit_votes, "block": res.block_votes,
            "abstain": res.abstain_votes, "score": res.weighted_score}
 
+    # S8 history independence: the decision is a function of the ballot and configuration, not of how the colony got there
+    if case.get("hist"):
+        out.label("history")
+        try:
+            fresh = _run(case, voters)
+        except Exception as e:
+            out.fail("raise:%s:%s" % (type(e).__name__, tag), "run_vote raised %s" % e, None)
+            return out
+        if (fresh.reached, fresh.decision, fresh.permit_votes, fresh.block_votes) != (res.reached, res.decision, res.permit_votes, res.block_votes):
+            out.fail("S8-history-dependent-decision:" + tag, "same ballot and configuration: %s on a colony built step by step, %s on a fresh one"
+                     % (res.decision.value, fresh.decision.value), dict(obs, hist=case["hist"]))
     # S1
     if res.reached != (res.decision == VoteType.PERMIT):
         out.fail("S1-reached-vs-decision:" + tag, "reached=%s but decision=%s" % (res.reached, res.decision.value), obs)
